@@ -63,7 +63,7 @@ def strategy_(draw, tier):
     b = gen_graph._Builder(draw, rnd, [draw(st.sampled_from(["s", "s", "", "b"])), draw(st.sampled_from(["utg", "n", "s0", "b"]))], start, 9)
     b.cycles = draw(st.booleans())
     nchrom = draw(st.integers(1, 3))
-    names = draw(st.permutations(["chr1", "chr2", "chrX", "chr10_alt"]))[:nchrom]
+    names = draw(st.permutations(["chr1", "chr2", "chrX", "chr10_alt", "chr1.mat", "chr1.pat"]))[:nchrom]
     for name in names:
         b.chain(name, draw(elements()))
     b.fix_majority()
@@ -257,7 +257,80 @@ def default_order_cases():
                        "by_chrom": by, "via": via, "default_order": True}
 
 
+def long_chain_case():
+    """One chromosome whose bubble chain has about 1 300 elements (recursion depth, quadratic steps ... show only here)."""
+    lines = []
+    pos = 0
+    prev = None
+    nid = 0
+    for k in range(650):
+        nid += 1
+        a = "s%d" % nid
+        lines.append("S\t%s\t*\tLN:i:3\tSN:Z:chr1\tSO:i:%d\tSR:i:0" % (a, pos))
+        pos += 3
+        if prev:
+            nid += 1
+            r = "s%d" % nid
+            nid += 1
+            h = "s%d" % nid
+            lines.append("S\t%s\t*\tLN:i:2\tSN:Z:chr1\tSO:i:%d\tSR:i:0" % (r, pos))
+            pos += 2
+            lines.append("S\t%s\t*\tLN:i:2\tSN:Z:alt%d\tSO:i:0\tSR:i:1" % (h, k))
+            # prev -> (r | h) -> a   with the reference offsets increasing along prev, r, a
+            lines[-3], lines[-2] = lines[-2], lines[-3]
+            for x, y in ((prev, r), (r, a), (prev, h), (h, a)):
+                lines.append("L\t%s\t+\t%s\t+\t0M" % (x, y))
+        prev = a
+    # fix offsets: recompute SO in chain order (prev, r, a ...)
+    out, pos = [], 0
+    order = []
+    for l in lines:
+        f = l.split("\t")
+        if f[0] == "S" and f[4] == "SN:Z:chr1":
+            order.append(f[1])
+    # chain order of reference segments: s1, then for each k: r_k, a_k
+    import re as _re
+
+    ref_lines = {l.split("\t")[1]: l for l in lines if l.startswith("S") and "SN:Z:chr1" in l}
+    ids = sorted(ref_lines, key=lambda x: int(x[1:]))
+    seq = [ids[0]]
+    rest = ids[1:]
+    # ids were allocated as a_k (nid), then r_k, h_k -> a_k < r_k; the walk visits r_k before a_k
+    i = 0
+    while i < len(rest):
+        a_k = rest[i]
+        r_k = rest[i + 1] if i + 1 < len(rest) else None
+        if r_k is not None:
+            seq += [r_k, a_k]
+            i += 2
+        else:
+            seq.append(a_k)
+            i += 1
+    newso = {}
+    for n in seq:
+        ln = int(_re.search(r"LN:i:(\d+)", ref_lines[n]).group(1))
+        newso[n] = pos
+        pos += ln
+    text = []
+    for l in lines:
+        f = l.split("\t")
+        if f[0] == "S" and f[1] in newso:
+            f = [x if not x.startswith("SO:i:") else "SO:i:%d" % newso[f[1]] for x in f]
+        text.append("\t".join(f))
+    return "\n".join(text) + "\n"
+
+
 def enumerations(tier, shard, nshards):
+    if shard == 1 or nshards == 1:
+        def longc():
+            import random
+
+            t = long_chain_case()
+            l2 = t.rstrip("\n").split("\n")
+            random.Random(3).shuffle(l2)
+            yield {"gfa": t, "gfa2": "\n".join(l2) + "\n", "order": "chr1", "by_chrom": False, "via": "api"}
+
+        yield ("one chromosome with a chain of about 1 300 elements", longc(), True)
     if shard == 0:
         yield ("default chromosome order: 25 chromosomes, --chromosome_order omitted, two renderings x by_chrom x api/cli",
                default_order_cases(), True)
